@@ -65,7 +65,17 @@ static void program_case(unsigned prog, int len, int big_ok) {
     opres_t res;
     const int prefill = (int)(rng_u64(r) & 3);
     const unsigned mis = (unsigned)(rng_u64(r) & 7);
+    // where the buffers of this call live relative to each other is drawn per call as well: separate blocks (half of the
+    // calls), one arena ascending / descending, flush against guard pages, 64 GiB apart, packed back to back
+    {
+      static const int PL[] = {0, 0, 0, 0, 0, 0, 1, 2, 3, 4, 5, 6};
+      g_case_place = PL[rng_u64(r) % ARRAY_LEN(PL)];
+      g_case_aligned = g_case_place == 0 && (rng_u64(r) & 7) == 0;
+    }
     op_exec(o, e, ws[w].seed, prefill, mis, MON_CANARY, &res);
+    cntf("placement:%d", 1, g_case_place);
+    g_case_place = 0;
+    g_case_aligned = 0;
     cnt("calls", 1);
     if (res.skipped) continue;
     if (res.canary_bad) viol("canary", "%s: %s", o->name, res.msg);
